@@ -261,3 +261,83 @@ Proof.
     - intros t Ht. specialize (Pw t ltac:(lra)). apply Rabs_le_between in Pw. lra. }
   apply Rabs_le. lra.
 Qed.
+
+(* ---------------- the nearly straight branch of the repaired code -------------
+   abs(a) < 1e-8 abs(b):  s = |b| (t1 - t0) + (a.b)/|b| (t1^2 - t0^2).
+   It never exceeds the arc length and is within (4/3) |a|^2/|b| (t1^3 - t0^3)
+   of it (relative error <= 4 (|a|/|b|)^2 <= 4e-16 under the code's guard). *)
+Lemma near_linear_pointwise ax ay bx by_ t :
+  let A := hyp ax ay in let B := hyp bx by_ in
+  0 <= t <= 1 -> 4 * A <= B -> 0 < B ->
+  let p := hyp (2 * t * ax + bx) (2 * t * ay + by_) in
+  let q := B + 2 * t * ((ax * bx + ay * by_) / B) in
+  0 <= p - q <= 4 * A * A / B * (t * t).
+Proof.
+  intros A B Ht HAB HB p q.
+  pose proof (hyp_sq ax ay) as SA. pose proof (hyp_sq bx by_) as SB.
+  pose proof (hyp_nonneg ax ay) as PA. fold A in SA, PA. fold B in SB.
+  pose proof (hyp_sq (2 * t * ax + bx) (2 * t * ay + by_)) as SP. fold p in SP.
+  pose proof (hyp_nonneg (2 * t * ax + bx) (2 * t * ay + by_)) as PP. fold p in PP.
+  set (D := ax * bx + ay * by_) in *. set (E := D / B) in *.
+  assert (EB : E * B = D) by (unfold E; field; lra).
+  assert (DD : D * D <= A * A * (B * B)).
+  { rewrite SA, SB. unfold D. pose proof (pow2_ge_0 (ax * by_ - ay * bx)). nra. }
+  assert (EE : E * E <= A * A).
+  { apply (Rmult_le_reg_r (B * B)); [nra|].
+    replace (E * E * (B * B)) with ((E * B) * (E * B)) by ring. rewrite EB. exact DD. }
+  assert (Eabs : - A <= E <= A) by (split; nra).
+  assert (Pq : p * p = B * B + 4 * t * D + 4 * (t * t) * (A * A)).
+  { rewrite SP, SA, SB. unfold D. ring. }
+  assert (Qq : q * q = B * B + 4 * t * D + 4 * (t * t) * (E * E)).
+  { unfold q. rewrite <- EB. ring. }
+  assert (Qlo : B / 2 <= q) by (unfold q; nra).
+  assert (Diff : 0 <= p * p - q * q <= 4 * (t * t) * (A * A)).
+  { rewrite Pq, Qq. assert (0 <= t * t) by nra. split; nra. }
+  assert (Pge : q <= p).
+  { destruct (Rle_dec q p); [assumption|]. exfalso. nra. }
+  split; [lra|].
+  apply (Rmult_le_reg_r B); [assumption|].
+  replace (4 * A * A / B * (t * t) * B) with (4 * (t * t) * (A * A)) by (field; lra).
+  assert ((p - q) * B <= (p - q) * (p + q)) by (apply Rmult_le_compat_l; lra).
+  nra.
+Qed.
+
+Theorem quad_near_linear_bound (a b : Cplx R) t0 t1 :
+  0 <= t0 <= t1 -> t1 <= 1 -> 4 * cabs NumTR a <= cabs NumTR b -> 0 < cabs NumTR b ->
+  0 <= arclen (qdx a b) (qdy a b) t0 t1 - quad_near_linear NumR NumTR a b t0 t1
+    <= 4 / 3 * (cabs NumTR a * cabs NumTR a) / cabs NumTR b * (t1 * t1 * t1 - t0 * t0 * t0).
+Proof.
+  intros H01 H1. unfold quad_near_linear, sq. rewrite !cabs_R.
+  destruct a as [ax ay], b as [bx by_]. cbn [fst snd re im add sub mul div NumR].
+  set (A := hyp ax ay). set (B := hyp bx by_). set (E := (ax * bx + ay * by_) / B).
+  intros HAB HB.
+  pose proof (qd_cont (ax, ay) (bx, by_)) as QC.
+  assert (Ex : ex_RInt (speed (qdx (ax, ay) (bx, by_)) (qdy (ax, ay) (bx, by_))) t0 t1)
+    by (apply speed_ex_RInt; intros; apply QC).
+  assert (Pw : forall t, 0 <= t <= 1 ->
+     0 <= speed (qdx (ax, ay) (bx, by_)) (qdy (ax, ay) (bx, by_)) t - (B + 2 * t * E) <= 4 * A * A / B * (t * t)).
+  { intros t Ht. apply (near_linear_pointwise ax ay bx by_ t Ht HAB HB). }
+  (* the model's value is the integral of q(t) = B + 2 E t *)
+  assert (IQ : @eq R (RInt (fun t => B + (2 * E) * t) t0 t1) (B * (t1 - t0) + E * (t1 * t1 - t0 * t0))).
+  { rewrite RInt_affine. field. }
+  assert (IC : @eq R (RInt (fun t => B + (2 * E) * t + 4 * A * A / B * (t * t)) t0 t1)
+                  (B * (t1 - t0) + E * (t1 * t1 - t0 * t0)
+                   + 4 / 3 * (A * A) / B * (t1 * t1 * t1 - t0 * t0 * t0))).
+  { rewrite (RInt_of_antideriv (fun t => B * t + E * (t * t) + 4 * A * A / B * (t * t * t) / 3)
+                               (fun t => B + (2 * E) * t + 4 * A * A / B * (t * t))).
+    - field. lra.
+    - intros t. auto_derive; [exact I|field; lra].
+    - intros t. poly_cont. }
+  assert (Lo : B * (t1 - t0) + E * (t1 * t1 - t0 * t0)
+               <= arclen (qdx (ax, ay) (bx, by_)) (qdy (ax, ay) (bx, by_)) t0 t1).
+  { rewrite <- IQ. apply RInt_le; try lra; auto.
+    - apply (ex_RInt_continuous (fun t => B + 2 * E * t)). intros; poly_cont.
+    - intros t Ht. specialize (Pw t ltac:(lra)). lra. }
+  assert (Hi : arclen (qdx (ax, ay) (bx, by_)) (qdy (ax, ay) (bx, by_)) t0 t1
+               <= B * (t1 - t0) + E * (t1 * t1 - t0 * t0)
+                  + 4 / 3 * (A * A) / B * (t1 * t1 * t1 - t0 * t0 * t0)).
+  { rewrite <- IC. apply RInt_le; try lra; auto.
+    - apply (ex_RInt_continuous (fun t => B + 2 * E * t + 4 * A * A / B * (t * t))). intros; poly_cont.
+    - intros t Ht. specialize (Pw t ltac:(lra)). lra. }
+  lra.
+Qed.
